@@ -347,7 +347,7 @@ func (impl Implementation) Dtgsja(jobU, jobV, jobQ lapack.GSVDJob, m, p, n, k, l
 					a1 := a[(k+i)*lda+n-l+i]
 					b1 := b[i*ldb+n-l+i]
 					gamma := b1 / a1
-					if !math.IsInf(gamma, 0) {
+					if !math.IsInf(gamma, 0) && !math.IsNaN(gamma) {
 						// Change sign if necessary.
 						if gamma < 0 {
 							bi.Dscal(l-i, -1, b[i*ldb+n-l+i:], 1)
